@@ -497,6 +497,7 @@ DeferredLost(i, c) ==
     {r \in InflightOf(Pre(i), c) : r.t = PUBLISH /\ r.expiry < 0 /\ ~(\E r2 \in InflightOf(e.st, c) : r2.pid = r.pid)
                                     /\ ~(\E q \in ToSet(PktsTo(e, c)) : q.t = PUBLISH /\ q.pid = r.pid)}
 
+WillDelivered(e, m) == \E d \in AllClientIds(e) : \E q \in ToSet(PktsTo(e, d)) : q.t = PUBLISH /\ q.m = m
 GhostNextOf(i) ==
     LET e == Trace[i] IN
     IF e.ev = "Config" THEN GhostInit ELSE
@@ -556,7 +557,10 @@ GhostNextOf(i) ==
         nowillN == g.nowill \cup {g.will[k].m : k \in {x \in DOMAIN g.will : e.ev = "disconnect" /\ e.k = x /\ ok /\ e.a.rc = 0}}
                             \cup (IF isConn /\ ConnackSP(e) /\ e.c \in DOMAIN g.pendw THEN {g.pendw[e.c].m} ELSE {})
                             \cup (IF isConn /\ ConnackSP(e) THEN {g.will[k].m : k \in {x \in newPend : g.will[x].c = e.c}} ELSE {})
+        \* wills that have been published: reported by OnWillSent, or seen on the wire (the hook is not called when the
+        \* session of the will's client is gone by the time a delayed will is published)
         sentN == g.willsent \cup {h.m : h \in {x \in Hooks(e) : x.h = "will_sent"}}
+                 \cup {m \in {g.will[k].m : k \in DOMAIN g.will} \cup {g.pendw[c].m : c \in DOMAIN g.pendw} : WillDelivered(e, m)}
         aoN == [k \in DOMAIN g.aliasOut \cup {x \in DOMAIN e.out : \E q \in ToSet(e.out[x]) : q.t = PUBLISH /\ q.alias > 0 /\ q.ts # ""} |->
                   LET old == Get(g.aliasOut, k, <<>>)
                       new == {q \in ToSet(OutOf(e, k)) : q.t = PUBLISH /\ q.alias > 0 /\ q.ts # ""} IN
@@ -871,7 +875,6 @@ WillOf(k) == g.will[k]
 (* the abnormal end of connection k in this step *)
 AbnormalEnd(i, k) == AbnormalEndG(i, k)
 NormalEnd(i, k) == LET e == Trace[i] IN e.ev = "disconnect" /\ e.k = k /\ e.err = "" /\ e.a.rc = 0 /\ k \in DOMAIN g.will
-WillDelivered(e, m) == \E d \in AllClientIds(e) : \E q \in ToSet(PktsTo(e, d)) : q.t = PUBLISH /\ q.m = m
 WillPublishedIn(e, m) == WillDelivered(e, m) \/ (\E h \in Hooks(e) : h.h = "will_sent" /\ h.m = m) \/ (\E r \in RetainedSet(e.st) : r.m = m)
 
 J_C16(i) ==
